@@ -84,7 +84,7 @@ def derived_strings(draw, g, k=3, maxlen=6, fuel=40):
 
 
 @st.composite
-def raw_grammar(draw, max_nt=4, max_rules=8, max_terms=3, min_terms=1, undef_rate=0.08, boost=None, corner_rate=0.2, cycle_rate=0.15, cnf_rate=0.1):
+def raw_grammar(draw, max_nt=4, max_rules=8, max_terms=3, min_terms=1, undef_rate=0.08, boost=None, corner_rate=0.2, cycle_rate=0.15, cnf_rate=0.1, long_rate=0.07):
     nV = draw(st.integers(min_terms, max_terms))
     V = TERMS[:nV]
     nN = draw(st.integers(1, max_nt))
@@ -96,6 +96,8 @@ def raw_grammar(draw, max_nt=4, max_rules=8, max_terms=3, min_terms=1, undef_rat
         return draw(cycle_grammar(V, NTS[: max(3, nN)]))
     if fam < (corner_rate + cycle_rate + cnf_rate) * 100:
         return draw(cnf_shaped_grammar(V, N, max_rules))
+    if fam < (corner_rate + cycle_rate + cnf_rate + long_rate) * 100:
+        return draw(long_body_grammar(V, N))
     nR = draw(st.integers(1, max_rules))
     use_undef = draw(st.integers(0, 99)) < undef_rate * 100
     syms = N + V + ([UNDEF] if use_undef else [])
@@ -209,6 +211,27 @@ def cnf_shaped_grammar(draw, V, N, max_rules):
         if not any(h == X and all(y in V for y in b) for h, b in rules):
             rules.append([X, [draw(st.sampled_from(V))]])
     return {"S": N[0], "V": V, "rules": rules, "boost": True, "family": "cnf_shaped"}
+
+
+@st.composite
+def long_body_grammar(draw, V, N):
+    """Fifth family: two or three rules with bodies of 5-7 symbols that share a common tail (their heads
+    may differ), plus short rules; wide rules are where binarisation, folding and memoised tails live."""
+    inner = V + (N[1:] if len(N) > 1 else [])
+    tail = [draw(st.sampled_from(inner)) for _ in range(draw(st.integers(2, 4)))]
+    rules = []
+    for _ in range(draw(st.integers(2, 3))):
+        pre = [draw(st.sampled_from(V + N)) if draw(st.integers(0, 3)) else draw(st.sampled_from(V)) for _ in range(draw(st.integers(2, 3)))]
+        rules.append([draw(st.sampled_from(N)), pre + tail])
+    for _ in range(draw(st.integers(0, 2))):
+        rules.append([draw(st.sampled_from(N)), [draw(st.sampled_from(V + N)) for _ in range(draw(st.integers(0, 2)))]])
+    for X in N:
+        if not any(h == X and all(y in V for y in b) for h, b in rules):
+            rules.append([X, [draw(st.sampled_from(V))]] if draw(st.integers(0, 3)) else [X, []])
+    if not any(h == N[0] and len(b) >= 5 for h, b in rules) and draw(st.booleans()):
+        rules.append([N[0], [rules[0][0]]])
+    idx = draw(st.permutations(range(len(rules))))
+    return {"S": N[0], "V": V, "rules": [rules[i] for i in idx], "boost": True, "family": "long_bodies"}
 
 
 def repair(g, mode):
